@@ -73,6 +73,9 @@ var subst = map[string]map[string]target{
 	"google.golang.org/grpc": {
 		"DialContext": {"verifsim/simgrpc", "zsimgrpc", "DialContext"},
 	},
+	"github.com/jhump/protoreflect/grpcreflect": {
+		"NewClientAuto": {"verifsim/simgrpc", "zsimgrpc", "NewReflectClientAuto"},
+	},
 	"os/signal": {
 		"Notify": {"verifsim/simsig", "zsimsig", "Notify"},
 		"Stop":   {"verifsim/simsig", "zsimsig", "Stop"},
